@@ -103,6 +103,7 @@ impl Props { pub fn to_string(&self) -> Msg { Msg } pub fn clone(&self) -> Props
 pub struct Context { props: Props }
 impl Context {
     pub fn props(&self) -> &Props { &self.props }
+    pub fn feature(&self) -> Feature { self.props.request_feature }
     pub fn set_state(&mut self, s: ContextState) -> &mut Self { unsafe { LAST_STATE = match s { ContextState::ServerConnecting => 1, ContextState::Terminated => 2 }; } self }
     pub fn set_connector(&mut self, n: Name) -> &mut Self { unsafe { RECORDED = n.0; N_SET_CONNECTOR += 1; } self }
 }
